@@ -66,7 +66,16 @@ func VH_C09_walk() {
 	}
 	mkfile("a.c")
 	if v.Bool("has-b") {
-		mkfile("b")
+		if v.Bool("b-links-symlink") {
+			// a second name for the symlink a-b itself (link(2) does not follow)
+			_, _, isLink := snapKind(m.Snapshot(root), "a-b")
+			k, _, _ := snapKind(m.Snapshot(root), "a-b")
+			v.Assume(isLink && k == m.KSymlink)
+			m.MkLink(root+"/a-b", root+"/b")
+			v.Cover("hardlinked-symlink")
+		} else {
+			mkfile("b")
+		}
 	}
 	m.SetMtime(root+"/a", chooseMtime("mtime-a"))
 	snap := m.Snapshot(root)
